@@ -36,6 +36,10 @@ def b_len(E, st, args, kw):
 @R.spec("builtins.isinstance")
 def b_isinstance(E, st, args, kw):
     v, c = args
+    if isinstance(c, VOpaque):
+        h = R.specs.get("U.instance_of")
+        if h:
+            return h(E, st, [v, c], kw)
     classes = list(c.items) if isinstance(c, VTuple) else [c]
     names = set()
     for k in classes:
